@@ -27,9 +27,10 @@ def mk_classes():
         def c1(self):
             self.a < 2
 
-        @vsc.constraint
-        def c1x(self):
+        # a block given by assignment: the attribute name differs from the body's function name
+        def _body_of_c1x(self):
             self.b < 2
+        c1x = vsc.constraint(_body_of_c1x)
 
     @vsc.randobj
     class Derived(Base):
@@ -46,8 +47,9 @@ def mk_classes():
             self.s = vsc.rand_attr(Derived())
             self.k = vsc.rand_bit_t(2)
 
+        # the holder's own block carries the same name as a block of its sub-object
         @vsc.constraint
-        def ck(self):
+        def c1(self):
             self.k != 0
 
     @vsc.randobj
@@ -76,6 +78,7 @@ class World(object):
         self.objs = {}      # slot -> root object
         self.ref = {}       # instance path -> {block: enabled}
         self.kind = {}      # instance path -> 'D' | 'B'
+        self.holder_on = True   # block c1 of the holder n0 itself
 
     def instances(self, slot):
         """[(path, object)] of the randobj instances with c1/c2 under a root slot"""
@@ -108,6 +111,10 @@ class World(object):
         raise KeyError(path)
 
     def toggle(self, path, blk, en):
+        if path == "n0#":
+            getattr(self.objs["n0"], blk).constraint_mode(en)
+            self.holder_on = en
+            return
         getattr(self.inst(path), blk).constraint_mode(en)
         self.ref[path][blk] = en
 
@@ -126,8 +133,11 @@ class World(object):
 
     def key(self):
         """reference state + hidden fingerprint of the implementation"""
-        ref = tuple(sorted((p, tuple(sorted(d.items()))) for p, d in self.ref.items()))
+        ref = tuple(sorted((p, tuple(sorted(d.items()))) for p, d in self.ref.items())) + (("n0#", self.holder_on),)
         hidden = []
+        if "n0" in self.objs:
+            hm = self.objs["n0"].get_model()
+            hidden.append(("n0#", tuple((c.name, bool(c.enabled)) for c in hm.constraint_model_l)))
         for p, o in self.all_instances():
             m = o.get_model()
             hidden.append((p, tuple((c.name, bool(c.enabled)) for c in m.constraint_model_l)))
@@ -174,6 +184,8 @@ def enabled_ops(w):
             ops.append(("mode", p, blk, not w.ref[p][blk]))
             # idempotent toggle (same value again) is a distinct API call
             ops.append(("mode", p, blk, w.ref[p][blk]))
+    if "n0" in w.objs:
+        ops.append(("mode", "n0#", "c1", not w.holder_on))
     for s in SLOTS:
         if s in w.objs:
             ops.append(("rand", s))
@@ -247,10 +259,12 @@ def check_rand(hist, slot, bound=1):
                                          sorted(got), sorted(exp))})
     if slot == "n0" and "n0.k" in reached:
         got = set(v[0] for v in reached["n0.k"])
-        if got != {1, 2, 3}:
+        expk = {1, 2, 3} if w.holder_on else {0, 1, 2, 3}
+        if got != expk:
             viol.append({"subcheck": "holder_block", "case": {"hist": hist, "op": ["rand", slot], "choices": None},
-                         "observed": sorted(got), "expected": [1, 2, 3],
-                         "what": "holder field k takes %r, expected {1,2,3}" % (sorted(got),)})
+                         "observed": sorted(got), "expected": sorted(expk),
+                         "what": "after %r: holder field k takes %r while the holder's own block c1 is %s: expected %r" % (
+                             hist, sorted(got), "on" if w.holder_on else "off", sorted(expk))})
     return viol[:6], cnt
 
 
